@@ -137,6 +137,7 @@ func gen(g *common.Gen) {
 	thorough := common.Thorough()
 	kt := knownTypes()
 	var packets [][]byte // valid Interest / Data / LpPacket encodings for the link part
+	var minimalPackets [][]byte
 	// ---- part A: every generated decoder; g.N = values per model
 	for _, m := range c13.Models {
 		if !m.Exported {
@@ -165,13 +166,62 @@ func gen(g *common.Gen) {
 			}
 		}
 	}
-	// ---- part B: ReadPacket on mutated packets
-	for i, b := range packets {
-		if i >= 4*g.N+8 {
-			break
+	// ---- part A2: the systematic family of minimal well-formed values of every model: the valid
+	// encoding through both readers, every truncation, and a sample of the mutations
+	for _, m := range c13.Models {
+		if !m.Exported {
+			continue
 		}
 		r := g.R.Fork()
+		g.Op("new dec %s", m.Key())
+		g.Stat("dec-history")
+		for _, v := range m.MinimalValues(0) {
+			b := safeEncode(m, v)
+			if b == nil {
+				g.Stat("encode-failed")
+				continue
+			}
+			g.Stat("minimal-value")
+			if m.Key() == "spec_2022.Packet" && len(b) > 0 {
+				minimalPackets = append(minimalPackets, b)
+			}
+			ms := mutations(r, b, kt, thorough)
+			keep := 10
+			if thorough {
+				keep = 40
+			}
+			if keep > len(ms) {
+				keep = len(ms)
+			}
+			for j := 0; j < keep; j++ {
+				mu := ms[j]
+				if j > 0 && len(ms) > keep {
+					mu = ms[1+r.Intn(len(ms)-1)]
+				}
+				h := common.Hex(mu.b)
+				g.Op("p %d %s -", r.Intn(2), h)
+				g.Op("p %d %s %s", r.Intn(2), h, cutsFor(r, len(mu.b)))
+				g.StatN("inputs", 2)
+			}
+		}
+	}
+	packets = append(minimalPackets, packets...)
+	// ---- part B: ReadPacket on mutated packets
+	for i, b := range packets {
+		r := g.R.Fork()
 		g.Op("new pkt")
+		// every packet as it is, through both readers; the full mutation set for a sample only
+		h0 := common.Hex(b)
+		g.Op("rp %s -", h0)
+		g.Op("rp %s %s", h0, cutsFor(r, len(b)))
+		g.StatN("inputs", 2)
+		g.Stat("rp-packet")
+		if i%16 != 0 && !thorough && i < len(minimalPackets) {
+			continue
+		}
+		if i >= len(minimalPackets)+4*g.N+8 {
+			continue
+		}
 		for _, mu := range mutations(r, b, kt, thorough) {
 			h := common.Hex(mu.b)
 			g.Op("rp %s -", h)
